@@ -414,7 +414,26 @@ def _replicated_value(f):
     res = tail(st)
     expect(res.get("k") == "Struct" and res.get("rest") is None, "must end in a ReplicatedValue literal", res)
     lets = {pname(s["pat"]): s["init"] for s in st[:-1] if s["k"] == "Let" and pname(s["pat"]) is not None}
-    expect(len(lets) == len(st) - 1, "only `let merged_x = ..` statements are expected before the result", f["body"])
+    # `let (a, b) = (self.f.as_ref(), other.f.as_ref());` - plain aliases of the two sides of one field
+    aliases = {}
+    nalias = 0
+    for s_ in st[:-1]:
+        if s_["k"] == "Let" and s_["pat"].get("k") == "PTuple" and isinstance(s_.get("init"), dict) and s_["init"].get("k") == "Tuple" \
+                and len(s_["pat"]["elems"]) == len(s_["init"]["elems"]) and all(pname(q) for q in s_["pat"]["elems"]):
+            ok_ = True
+            for q, e_ in zip(s_["pat"]["elems"], s_["init"]["elems"]):
+                e2 = e_
+                while is_mc(e2, "as_ref", 0) or is_mc(e2, "as_deref", 0) or is_mc(e2, "clone", 0) or is_mc(e2, "copied", 0):
+                    e2 = e2["recv"]
+                a_ = acc(e2)
+                if a_ is None or a_[0] not in ("self", "other") or len(a_[1]) != 1:
+                    ok_ = False
+                else:
+                    aliases[pname(q)] = a_
+            if ok_:
+                nalias += 1
+    _ALIASES["a"] = aliases
+    expect(len(lets) + nalias == len(st) - 1, "only `let merged_x = ..` statements are expected before the result", f["body"])
     parts = []
     for fl in res["fields"]:
         name = fl["n"]
@@ -446,6 +465,73 @@ def _replicated_value(f):
 
 
 _TREE = {"t": None}
+_ALIASES = {"a": {}}
+
+
+def _side(e):
+    """('self'|'other', (field,)) for `self.f`, `other.f`, their .as_ref()/.clone()/.copied() and the tuple-let aliases of those"""
+    e = strip(e)
+    while is_mc(e, "as_ref", 0) or is_mc(e, "as_deref", 0) or is_mc(e, "clone", 0) or is_mc(e, "copied", 0) or is_mc(e, "cloned", 0):
+        e = strip(e["recv"])
+    a = acc(e)
+    if a is None:
+        return None
+    if a[0] in _ALIASES["a"] and not a[1]:
+        return _ALIASES["a"][a[0]]
+    return a if a[0] in ("self", "other") else None
+
+
+def _optlift_chain(e, name):
+    """the same four-case lift written with Option combinators:
+         X.zip(Y).map(|(a, b)| a.op(b)).or(X).or(Y)          /          X.zip(Y).map(|(a, b)| a.op(b)).or_else(|| X.or(Y).cloned())
+    with X, Y = the field on self / on other.  (Some,Some) -> Some(a op b); one side -> that side; none -> None."""
+    e = strip(e)
+    rest = []
+    cur = e
+    while isinstance(cur, dict) and cur.get("k") == "MethodCall" and cur["m"] in ("or", "or_else"):
+        rest.append(cur)
+        cur = strip(cur["recv"])
+    if not (is_mc(cur, "map", 1) and is_mc(strip(cur["recv"]), "zip", 1)) or not rest:
+        return None
+    z = strip(cur["recv"])
+    x, y = _side(z["recv"]), _side(z["args"][0])
+    expect(x is not None and y is not None and {x[0], y[0]} == {"self", "other"} and x[1] == y[1] == (name,),
+           "field %s: zip must pair self.%s with other.%s" % (name, name, name), e)
+    clo = strip(cur["args"][0])
+    expect(clo.get("k") == "Closure" and len(clo.get("params", [])) == 1 and clo["params"][0].get("k") == "PTuple" and len(clo["params"][0]["elems"]) == 2,
+           "field %s: map must take |(a, b)|" % name, cur)
+    ca, cb_ = [pname(q) for q in clo["params"][0]["elems"]]
+    body = clo["body"]
+    if body.get("k") == "Block":
+        expect(len(body["stmts"]) == 1, "field %s: closure body must be one expression" % name, clo)
+        body = body["stmts"][0].get("e") or body["stmts"][0]
+    body = strip(body)
+    expect(body.get("k") == "MethodCall" and len(body.get("args", [])) == 1 and {acc(body["recv"]), acc(body["args"][0])} == {(ca, ()), (cb_, ())},
+           "field %s: the mapped closure must be |(a, b)| a.op(b)" % name, clo)
+    op = body["m"]
+    # the fallbacks, innermost first: together they must offer both sides (in either order)
+    offered = []
+    for r_ in reversed(rest):
+        if r_["m"] == "or":
+            sd = _side(r_["args"][0])
+            expect(sd is not None and sd[1] == (name,), "field %s: .or(..) must fall back to one side of the same field" % name, r_)
+            offered.append(sd[0])
+        else:
+            c2 = strip(r_["args"][0])
+            expect(c2.get("k") == "Closure" and not c2.get("params"), "field %s: or_else must take a parameterless closure" % name, r_)
+            b2 = c2["body"]
+            if b2.get("k") == "Block":
+                expect(len(b2["stmts"]) == 1, "field %s: or_else closure must be one expression" % name, c2)
+                b2 = b2["stmts"][0].get("e") or b2["stmts"][0]
+            b2 = strip(b2)
+            while is_mc(b2, "cloned", 0) or is_mc(b2, "copied", 0):
+                b2 = strip(b2["recv"])
+            expect(is_mc(b2, "or", 1), "field %s: or_else closure must be X.or(Y)" % name, c2)
+            s1, s2 = _side(b2["recv"]), _side(b2["args"][0])
+            expect(s1 is not None and s2 is not None and s1[1] == s2[1] == (name,), "field %s: or_else closure must offer both sides of the field" % name, c2)
+            offered += [s1[0], s2[0]]
+    expect(set(offered) == {"self", "other"}, "field %s: the fallbacks must offer both sides (found %s): a value present on one side only would be lost" % (name, offered), e)
+    return op
 
 
 def _optlift_helper(e, name):
@@ -507,6 +593,9 @@ def _optlift(e, name):
     viah = _optlift_helper(e, name)
     if viah is not None:
         return viah
+    viac = _optlift_chain(e, name)
+    if viac is not None:
+        return viac
     expect(e.get("k") == "Match" and e["e"].get("k") == "Tuple" and len(e["e"]["elems"]) == 2, "field %s: expected match (self.%s, other.%s)" % (name, name, name), e)
     a, b = acc(e["e"]["elems"][0]), acc(e["e"]["elems"][1])
     expect(a == ("self", (name,)) and b == ("other", (name,)), "field %s: scrutinee must be (self.%s, other.%s), found %s/%s" % (name, name, name, a, b), e)
